@@ -61,6 +61,8 @@ class Injector:
             return f(x, y, z)
         return solve
 
+DATA = {}
+
 def base_problems(cvxopt, rng, count):
     """list of (name, frame_name, run(inj) -> result) with fresh data"""
     from cvxopt import matrix, spmatrix, solvers, misc, log, div, spdiag, blas
@@ -95,6 +97,33 @@ def base_problems(cvxopt, rng, count):
             inj.make = lambda W: factor(W, P)
             return quiet(solvers.coneqp, P, q, G, h, dims, kktsolver=inj.kktsolver, options={'show_progress': False})
         out.append(('coneqp%d' % i, 'coneqp', run_coneqp))
+        # --- conelp / coneqp with two semidefinite blocks (orders 2 and 3) next to a componentwise block
+        dS = {'l': 2, 'q': [], 's': [2, 3]}
+        def symcol():
+            col = [rng.randint(-3, 3) + rng.random() for _ in range(2)]
+            for k in (2, 3):
+                M_ = [[0.0] * k for _ in range(k)]
+                for a in range(k):
+                    for b_ in range(a, k):
+                        v = rng.randint(-3, 3) + rng.random(); M_[a][b_] = v; M_[b_][a] = v
+                col += [M_[a][b_] for b_ in range(k) for a in range(k)]
+            return col
+        GS = matrix([symcol() for _ in range(n)])
+        eyeS = [1.5, 1.2] + [2.0, 0.3, 0.3, 1.5] + [2.0, 0.2, 0.0, 0.2, 1.8, -0.1, 0.0, -0.1, 1.6]
+        s0S = matrix(eyeS); z0S = matrix([1.1, 0.9] + [1.0, -0.2, -0.2, 1.3] + [1.2, 0.0, 0.1, 0.0, 1.0, 0.2, 0.1, 0.2, 1.4])
+        xS = rmat(n, 1); hS = GS * xS + s0S; cS = -GS.T * z0S
+        def run_conelpS(inj, GS=GS, hS=hS, cS=cS, dS=dS, A0=A0):
+            factor = misc.kkt_ldl(GS, dS, A0)
+            inj.make = lambda W: factor(W)
+            return quiet(solvers.conelp, cS, GS, hS, dS, kktsolver=inj.kktsolver, options={'show_progress': False})
+        out.append(('conelpS%d' % i, 'conelp', run_conelpS))
+        DATA['conelpS%d' % i] = {'dims': dS, 'G': GS, 'h': hS, 'c': cS, 'P': None}
+        def run_coneqpS(inj, P=P, q=q, GS=GS, hS=hS, dS=dS, A0=A0):
+            factor = misc.kkt_ldl(GS, dS, A0)
+            inj.make = lambda W: factor(W, P)
+            return quiet(solvers.coneqp, P, q, GS, hS, dS, kktsolver=inj.kktsolver, options={'show_progress': False})
+        out.append(('coneqpS%d' % i, 'coneqp', run_coneqpS))
+        DATA['coneqpS%d' % i] = {'dims': dS, 'G': GS, 'h': hS, 'c': q, 'P': P}
         # --- coneqp without inequality constraints (direct solve)
         Ae = rmat(1, n); be = rmat(1, 1)
         def run_coneqp0(inj, P=P, q=q, Ae=Ae, be=be, n=n):
@@ -141,6 +170,31 @@ def base_problems(cvxopt, rng, count):
             return quiet(solvers.cp, Fcp, Gc, hc, dl, kktsolver=inj.kktsolver, options={'show_progress': False})
         out.append(('cp%d' % i, 'cpl', run_cp))
     return out
+
+def judge_unknown(cvxopt, r, D):
+    """an 'unknown' result of conelp / coneqp with 's' blocks: s and z are the last iterates - symmetric blocks, strictly inside the cone - and
+    the accuracy fields are those of the returned vectors (gap = <s, z>, primal infeasibility = ||Gx + s - h|| / max(1, ||h||))"""
+    from cvxopt import matrix, misc, blas, lapack
+    dims, G, h = D['dims'], D['G'], D['h']
+    x, s_, z_ = r.get('x'), r.get('s'), r.get('z')
+    if x is None or s_ is None or z_ is None: return None
+    for key, v in (('s', s_), ('z', z_)):
+        k = dims['l']
+        if any(not (v[i] > 0) for i in range(k)): return '%s is not strictly inside the cone' % key
+        for m in dims['s']:
+            M_ = matrix(list(v[k:k + m * m]), (m, m))
+            asym = max(abs(M_[a, b] - M_[b, a]) for a in range(m) for b in range(m))
+            if asym > 1e-9 * (1 + max(abs(t) for t in M_)): return "an 's' block of %s is not symmetric (asymmetry %.3g)" % (key, asym)
+            try: lapack.potrf(+M_)
+            except ArithmeticError: return "an 's' block of %s is not positive definite" % key
+            k += m * m
+    gap = misc.sdot(s_, z_, dims)
+    if r.get('gap') is not None and abs(r['gap'] - gap) > 1e-6 * (1 + abs(gap)): return "'gap' is %r but <s, z> = %r" % (r['gap'], gap)
+    res = G * x + s_ - h
+    pres = math.sqrt(abs(misc.sdot(res, res, dims))) / max(1.0, math.sqrt(abs(misc.sdot(h, h, dims))))
+    rep = r.get('primal infeasibility')
+    if rep is not None and abs(rep - pres) > 1e-6 * (1 + pres) + 1e-9: return "'primal infeasibility' is %r but ||Gx + s - h|| / max(1, ||h||) = %r" % (rep, pres)
+    return None
 
 def interior(v, dims, mnl=0):
     """strict cone membership of a returned slack vector (l and q blocks)"""
@@ -198,6 +252,10 @@ def correspond(ctx):
                 ctx.violation('c10:undocumented-exception:%s' % st, what + ' gives ' + st, case)
             elif st == 'valueError':
                 pass
+            elif st == 'unknown' and name in DATA:
+                bad = judge_unknown(cvxopt, r, DATA[name])
+                if bad:
+                    ctx.violation('c10:unknown-inconsistent:' + frame, what + ": status 'unknown' but " + bad, case)
             elif st == 'unknown':
                 dims = {'l': 0, 'q': [], 's': []}
                 # s and z of an 'unknown' result are the last accepted iterates: strictly inside the cone
